@@ -132,6 +132,10 @@ def gen_table(rng, n_enums):
         spec["limits"] = [rng.randint(0, 2), rng.randint(0, 2)]
     if rng.random() < 0.3 and recs:
         spec["nt"] = True
+    if rng.random() < 0.12:
+        spec["skip_columns"] = [rng.choice(fields)] if len(fields) > 2 and "fmt" not in spec else []
+    if rng.random() < 0.12:
+        spec["via_fmt_obj"] = True
     return spec
 
 
@@ -152,8 +156,10 @@ def gen_object(rng, n_enums):
     r = rng.random()
     if r < 0.45:
         return gen_table(rng, n_enums)
-    if r < 0.60:
+    if r < 0.57:
         return {"kind": "pp", "value": rng.choice(PP_VALUES), "fmt_json": rng.random() < 0.4}
+    if r < 0.60:
+        return {"kind": "ppwrap", "value": rng.choice(PP_VALUES)}
     if r < 0.72:
         fields = ["id", "name", "status"] if n_enums else ["id", "name"]
         fmt = rng.choice(["id:4,name:3-10", "name:8,id:2-6", "id:3,name:10"])
@@ -179,7 +185,10 @@ PALETTES_FOR = {
     "ghist": [None, None, {"cls": "altghist"}],
     "recfmt": [None, None, {"cls": "altrec"}],
     "hdoc": [None],
+    "ppwrap": [None],
 }
+GLOBAL_ONLY = ("hdoc", "ppwrap")
+POKES = ["len", "add", "slice", "fixed", "fixed2", "fmt", "getch", "iadd", "eq"]
 
 
 def gen_usr_batches(rng):
@@ -207,8 +216,8 @@ def generate(rng, tier):
 
     def render_args(o):
         kind = objs[live_obj[o]]["kind"]
-        conf = rng.choice(sorted(live_conf) + ["global"]) if (live_conf and kind != "hdoc") else "global"
-        a = {"obj": o, "conf": conf, "no_color": (rng.random() < 0.25 and kind != "hdoc"),
+        conf = rng.choice(sorted(live_conf) + ["global"]) if (live_conf and kind not in GLOBAL_ONLY) else "global"
+        a = {"obj": o, "conf": conf, "no_color": (rng.random() < 0.25 and kind not in GLOBAL_ONLY),
              "palette": rng.choice(PALETTES_FOR[kind]), "rec": rng.randrange(3)}
         return a
 
@@ -254,6 +263,8 @@ def generate(rng, tier):
             a = render_args(o)
             a["op"] = "render"
             a["how"] = rng.choice(["str", "str", "plain", "lines"])
+            if a["conf"] == "global" and not a["no_color"] and not a["palette"] and rng.random() < 0.3:
+                a["how"] = "dunder"
             ops.append(a)
         elif r < 0.80 or not live_task:
             o = rng.choice(sorted(live_obj))
@@ -271,8 +282,10 @@ def generate(rng, tier):
             elif r2 < 0.75:
                 ops.append({"op": "task_drain", "task": t})
                 del live_task[t]
-            elif r2 < 0.9:
+            elif r2 < 0.83:
                 ops.append({"op": "task_whole", "task": t, "how": rng.choice(["str", "plain"])})
+            elif r2 < 0.92:
+                ops.append({"op": "task_poke", "task": t, "what": rng.choice(POKES)})
             else:
                 ops.append({"op": "task_abandon", "task": t})
                 del live_task[t]
@@ -341,7 +354,7 @@ class World:
                       "conf_global": 0, "conf_add": 0, "touch": 0, "obj_new": 0, "after_other_conf": 0,
                       "after_drop": 0, "nocolor_checked": 0, "lines_vs_whole": 0, "plain_checked": 0,
                       "ref_errors_agreed": 0}
-        for k in ("table", "pp", "recfmt", "ghist", "hdoc"):
+        for k in ("table", "pp", "recfmt", "ghist", "hdoc", "ppwrap"):
             self.stats["kind." + k] = 0
 
     def sut(self, what, fn, *a, **kw):
@@ -403,7 +416,7 @@ class World:
         pal = op.get("palette")
         if pal and pal not in PALETTES_FOR[kind]:
             pal = None
-        if kind == "hdoc":
+        if kind in GLOBAL_ONLY:
             if via != "global":
                 return None
             mode = {"via": "global", "no_color": False, "palette": None}
@@ -435,14 +448,14 @@ class World:
         if want_plain and sgr.has_escape(text):
             raise Violation("O1", "escape-in-no_color-output",
                             f"{kind} rendering ({how}, no_color={t.mode['no_color']}, conf no_color={nc_conf}) contains an escape: {text[:200]!r}")
-        if kind == "hdoc":
+        if kind in GLOBAL_ONLY or how == "dunder":
             nc_spec = dict(t.conf_snapshot, no_color=True)
-            ref_nc = self.reference(t.spec_idx, nc_spec, t.mode)
+            ref_nc = self.reference(t.spec_idx, nc_spec, t.mode, how_ref="dunder" if how == "dunder" else "str")
         else:
             ref_nc = self.reference(t.spec_idx, t.conf_snapshot, t.mode, no_color=True)
         ref_c = None
         if not want_plain:
-            ref_c = self.reference(t.spec_idx, t.conf_snapshot, t.mode)
+            ref_c = self.reference(t.spec_idx, t.conf_snapshot, t.mode, how_ref="dunder" if how == "dunder" else "str")
         for ref in (ref_nc, ref_c):
             if ref is not None and "error" in ref:
                 if ref["error"].startswith("harness"):
@@ -569,8 +582,11 @@ def _do_op(w, trace, op, n, k, log, color):
                     return
                 how = op.get("how", "str")
                 kind = trace["objs"][t.spec_idx]["kind"]
-                if how == "lines" and kind == "recfmt":
-                    how = "str"       # a formatted record has no line structure
+                if how == "lines" and kind in ("recfmt", "ppwrap"):
+                    how = "str"       # a formatted record / a wrapper has no line structure
+                if how == "dunder" and (kind in ("recfmt", "pp", "hdoc") or t.mode["via"] != "global"
+                                        or t.mode["no_color"] or t.mode.get("palette")):
+                    how = "str"
                 if how == "lines":
                     lines = w.guarded("iterate-lines", t.ctx(), lambda: [rw.ro.line_to_str(x) for x in rw.ro.line_iter(t.r)])
                     text = "\n".join(lines)
@@ -586,6 +602,9 @@ def _do_op(w, trace, op, n, k, log, color):
                     w.check_text(t, text, how)
                 log.add("render", n, hashlib.blake2b(text.encode(), digest_size=6).hexdigest())
             elif k == "task_start":
+                ent0 = w.objs.get(op["obj"])
+                if ent0 is not None and ent0[0].kind == "ppwrap":
+                    return      # str(wrapper) renders when it is called: there is no request to defer
                 t = w.start(op)
                 if t is None:
                     return
@@ -631,6 +650,12 @@ def _do_op(w, trace, op, n, k, log, color):
                 text = w.guarded("whole-text", t.ctx(), rw.ro.whole_text, t.r, how)
                 w.check_text(t, text, how)
                 log.add("whole", n, hashlib.blake2b(text.encode(), digest_size=6).hexdigest())
+            elif k == "task_poke":
+                t = w.tasks.get(op["task"])
+                if t is None or t.r.res is None or w.trace["objs"][t.spec_idx]["kind"] not in ("pp", "table", "ghist"):
+                    return
+                w.guarded("poke-" + op["what"], t.ctx(), rw.ro.poke, t.r, op["what"])
+                w.stats["pokes"] = w.stats.get("pokes", 0) + 1
             elif k == "task_abandon":
                 t = w.tasks.pop(op["task"], None)
                 if t is None:
